@@ -87,6 +87,15 @@ func (n *Net) Cut(from, to string, on bool) {
 
 var ErrRefused = errors.New("simnet: connection refused")
 
+// ReadTimeoutNS is the read timeout of the internal and external clients in virtual nanoseconds.
+var ReadTimeoutNS = int64(3 * time.Second)
+
+type timeoutErr struct{}
+
+func (timeoutErr) Error() string   { return "i/o timeout" }
+func (timeoutErr) Timeout() bool   { return true }
+func (timeoutErr) Temporary() bool { return true }
+
 // DialerFor returns the Dialer to put into the config.Client of the member / client called from.
 func DialerFor(from string) func(ctx context.Context, network, addr string) (net.Conn, error) {
 	return func(ctx context.Context, network, addr string) (net.Conn, error) {
@@ -195,9 +204,18 @@ func (c *Conn) deliver(cmd redcon.Command) error {
 	if bad {
 		return &net.OpError{Op: "write", Net: "sim", Err: ErrRefused}
 	}
+	started := sched.PeekNS()
 	t.VerifServe(c.srv, cmd)
 	if c.srv.detached == nil {
 		c.srv.flushTo(c)
+	}
+	// The client side of a connection gives up on a reply after its read timeout (3 s by default,
+	// config.DefaultReadTimeout) while the member goes on handling the command. Inline delivery
+	// has no clock of its own, so the virtual time the handler took stands in for it: a command
+	// that kept its handler busy for longer than the timeout has taken effect, its reply is lost.
+	if !hs && c.srv.detached == nil && sched.PeekNS()-started > ReadTimeoutNS {
+		c.out = nil
+		return &net.OpError{Op: "read", Net: "sim", Err: timeoutErr{}}
 	}
 	// a member that stopped while it was handling the command (a fault at a nested delivery) sends
 	// no reply, and a caller that stopped meanwhile receives none
